@@ -12,7 +12,7 @@ CLAIMED = {
         "steps 1, purity/operands-outside for hoisting), the trip count is a ceiling, the induction values are "
         "k/ub_inner and k%ub_inner with the same constant, the dynamic subview size operand is chosen by counting "
         "dynamic entries. Decides these structural necessary conditions for every execution of the pass code, not the "
-        "operation sequence itself; the imperfect-nest merge is a listed known finding (F-11). Nested helpers of MoveMemrefDims that take an op of the matched type never read the enclosing pattern's matched op. Round-3 clauses: replace_uses_with_if spares only ops built here from the replaced value (by identity); dynamic subview sizes are accepted only from constant / affine.min / derivable dim producers (C17.dim-sources). Round-4 rule (F-40 fixed): the sizes of a subview are indexed by a result dimension only for subviews known to keep their rank, or through a count-checked mapping (C17.subview-rank).",
+        "operation sequence itself; the imperfect-nest merge is a listed known finding (F-11). Nested helpers of MoveMemrefDims that take an op of the matched type never read the enclosing pattern's matched op. Round-3 clauses: replace_uses_with_if spares only ops built here from the replaced value (by identity); dynamic subview sizes are accepted only from constant / affine.min / derivable dim producers (C17.dim-sources). Round-4 rule (F-40 fixed): the sizes of a subview are indexed by a result dimension only for subviews known to keep their rank, or through a count-checked mapping (C17.subview-rank). Round-5 rule (F-43 fixed): a block-argument memref is accepted only after relating its block to the loop of the dim (C17.block-args).",
         "Python semantics as modelled by the syntax-directed walker (sa/flow.py); xdsl API names (rewriter.*, "
         "replace_uses_with_if, InsertPoint) taken by name; helper predicates summarised one to two levels deep.",
         "custom AST dataflow: must-facts / guard dominance + def-use cones (static analysis)",
@@ -29,7 +29,7 @@ CLAIMED["C01"] = (
     "an in_state; loop hoisting excludes every field defined in the loop or written with two values anywhere in the "
     "loop body; sinking into scf.if requires that no launch of the if's state lies between; accfg ops have no purity "
     "traits; plus the C07 soundness rules of the consumed state inference. Holds for every execution of the pass code; "
-    "does not decide run-time register contents or confluence of the greedy driver. Round-3 clause (shared with C07): loop-head state from an exhaustive body scan.",
+    "does not decide run-time register contents or confluence of the greedy driver. Round-3 clause (shared with C07): loop-head state from an exhaustive body scan. Round-5 clause (F-44 fixed): the position test over the setup's values is strict - a value at the position of the scf.if (its own result) does not pass.",
     WALKER_NOTE,
     "custom AST dataflow: must-facts / guard dominance, def-use cones, trait tables (static analysis)",
     "DESIGN.md section 5, C01",
@@ -77,7 +77,7 @@ CLAIMED["C16"] = (
     "schedule is yielded only after all dims were handled; Template.matches rejects arity mismatches and needs every pair; "
     "TemplatePattern.matches never drops result rows of the schedule operand; the memory-granularity test pairs its two "
     "conditions per operand dimension; the pass and scheduler() request exactly these constraints. Does not decide the "
-    "SVD subspace comparison or the numeric predicates' arithmetic. Spatial unrolling requires coefficient 1 on a spatial column. Round-3 clause: the temporal-granularity test covers all temporal columns.",
+    "SVD subspace comparison or the numeric predicates' arithmetic. Spatial unrolling requires coefficient 1 on a spatial column. Round-3 clause: the temporal-granularity test covers all temporal columns. Round-5 rules: tile_dim inserts a dimension on every path (C16.tile-inserts); no function of the matcher / scheduler hands out a remembered result under a key that does not determine it (C16.no-stale-verdicts).",
     WALKER_NOTE,
     "custom AST dataflow: must-facts per path class (path enumeration over alternatives), structural pairing test (static analysis)",
     "DESIGN.md section 5, C16",
@@ -90,7 +90,7 @@ CLAIMED["C10"] = (
     "step*bound; canonicalize merges only under inner.step*inner.bound == outer.step, drops only unit bounds and keeps "
     "the innermost level; the common contiguous block only takes strides equal in both layouts that continue the running "
     "extent; bound/step op builders cover every (dim, depth). Decides these clauses, not numeric agreement of the views "
-    "on all layouts (arithmetic). Subview lowering pairs the k-th dynamic offset with the dimension of the k-th DYNAMIC entry and forms (offset div inner tile size) * outermost step * element bytes. Round-3 clauses: largest_common_contiguous_block returns only the built block; is_dense answers True only without self-overlap or against the number of index tuples (C10.dense-injective). Round-4 clauses (F-41 fixed): every non-zero static subview offset contributes a term for its own dimension and the op is replaced by the running pointer, not by the last op created.",
+    "on all layouts (arithmetic). Subview lowering pairs the k-th dynamic offset with the dimension of the k-th DYNAMIC entry and forms (offset div inner tile size) * outermost step * element bytes. Round-3 clauses: largest_common_contiguous_block returns only the built block; is_dense answers True only without self-overlap or against the number of index tuples (C10.dense-injective). Round-4 clauses (F-41 fixed): every non-zero static subview offset contributes a term for its own dimension and the op is replaced by the running pointer, not by the last op created. Round-5 rule: get_affine_map evaluated over symbolic bounds and steps equals the closed form for every tiling profile of 1-2 dimensions with 1-4 levels (C10.affine-eval, the evaluation of C02.tsl-affine); when the clause-by-clause rule cannot read a restructured source the evaluation alone decides.",
     WALKER_NOTE,
     "custom AST analysis: sibling (printer/parser) table agreement, slot templates on expanded expressions, must-facts (static analysis)",
     "DESIGN.md section 5, C10",
@@ -128,7 +128,7 @@ CLAIMED["C14"] = (
     "after the move (must-pass-through); terminators are never dispatchable so every group is flushed; the dispatcher "
     "is evaluated eagerly for every block of every function with a body; no concrete op kind is in both type sets; "
     "dispatching precedes all lowerings of dispatchable ops in every pipeline. Decides these clauses for every "
-    "execution of the pass code, not per-core traces of a particular program. Round-4 rule: both dispatch rules recognise an xDMA region by the type of the accelerator the context returns, never by the registered name (C14.xdma-by-type).",
+    "execution of the pass code, not per-core traces of a particular program. Round-4 rule: both dispatch rules recognise an xDMA region by the type of the accelerator the context returns, never by the registered name (C14.xdma-by-type). Round-5 rules: every path through an iteration of the dispatcher walk that starts with ops pending collects the op or flushes the group (C14.no-skip, path enumeration plus propositional satisfiability over the branch conditions); a table of extension kernels is keyed distinctly for all extensions of XDMA_EXT_SET (C14.all-extensions, evaluated on the classes' literal supported_kernel).",
     WALKER_NOTE,
     "custom AST dataflow: dependency templates, must-pass-through events, lazy-evaluation (short-circuit) detection, pipeline typestate (static analysis)",
     "DESIGN.md section 5, C14",
@@ -153,7 +153,7 @@ CLAIMED["C09"] = (
     "(sign analysis of ensure_access_granularity); unused dimensions get a unit bound at the running extent; a schedule "
     "bound becomes a tile bound only when it divides the remaining size; TiledStride.canonicalize merges only under "
     "inner.step*inner.bound == outer.step and drops only unit bounds. Does not decide `covers exactly the shape` for "
-    "strided (coefficient > 1) accesses nor the granularity values themselves. After the schedule loops every dimension gets an outer stride for the size left uncovered, shape // product of its bounds (F-32, fixed).",
+    "strided (coefficient > 1) accesses nor the granularity values themselves. After the schedule loops every dimension gets an outer stride for the size left uncovered, shape // product of its bounds (F-32, fixed). Round-5 clause: a schedule bound becomes a tile bound only if it divides what is LEFT of the dimension (size // bounds already placed).",
     WALKER_NOTE,
     "custom AST dataflow: must-facts per path class, statement-order (typestate) check on the running extent, sign/interval analysis of one helper (static analysis)",
     "DESIGN.md section 5, C09",
@@ -193,7 +193,7 @@ CLAIMED["C19"] = (
     "path conditions on the input, evaluated on a grid of model expressions); pairing and or-reduction shape of "
     "pack_bitlist. The identity test is bounded, not a proof; AffineTransform algebra and AccessPattern equivalence are "
     "not decided here (C03 covers the schedule transformations). The unprinted streamer system type is a listed known "
-    "finding (F-15). AffineTransform.from_affine_map refuses floordiv/ceildiv/mod anywhere in a result (complete traversal). Round-3: the rewrite-identity grid contains split/recombine shapes ((a floordiv c) * k + b mod c') with structural equality of model expressions. Round-4 rules: AccessPattern.canonicalize selects bounds and columns by one predicate that rejects exactly bound 1 - dynamic and zero bounds are kept (C19.pattern-canon, F-42 fixed); inner_dims slices bounds and columns alike (C19.inner-dims); the model grid of the rewrite identities has a divisor sharing a factor with a multiplier.",
+    "finding (F-15). AffineTransform.from_affine_map refuses floordiv/ceildiv/mod anywhere in a result (complete traversal). Round-3: the rewrite-identity grid contains split/recombine shapes ((a floordiv c) * k + b mod c') with structural equality of model expressions. Round-4 rules: AccessPattern.canonicalize selects bounds and columns by one predicate that rejects exactly bound 1 - dynamic and zero bounds are kept (C19.pattern-canon, F-42 fixed); inner_dims slices bounds and columns alike (C19.inner-dims); the model grid of the rewrite identities has a divisor sharing a factor with a multiplier. Round-5 rule: PatternCollection.canonicalize canonicalises every pattern by its own bounds (C19.collection-canon).",
     WALKER_NOTE + " Rewrite rules are extracted per return site with SSA-like tracking of the re-assigned parameter; helper predicates in path conditions are not assumed.",
     "printer/parser sibling agreement, registry tables, must-facts, bounded abstract evaluation of extracted rewrite rules (static analysis)",
     "DESIGN.md section 5, C19",
@@ -221,7 +221,7 @@ CLAIMED["C08"] = (
     "extension CSR tables have csr_length entries; values named like fields sit at their field's position; per-tensor "
     "lists are replicated only under their own length test. Segments whose length depends on the operation (gemmx "
     "per-channel rescale lists) are reported as undecided, not as violations. Does not decide numeric contents. F-5 and F-7 "
-    "are listed known findings. Four-per-register packing loops of the gemmx accelerator (setup path and per-channel launch path) place channel 4r+j at the same bit offset (abstract bit placement, sibling agreement). Round-3 rules: per-streamer locals are assigned in the iteration that reads them (C08.per-streamer-fresh, F-36 fixed); the bypass bit of an extension is its position among the extensions (C08.bypass-bit). Round-4 rule: the rescale whose parameters fill the gemmx registers is located from the region's yield or by a scan of the body, not at a fixed distance behind the matmul (C08.rescale-source).",
+    "are listed known findings. Four-per-register packing loops of the gemmx accelerator (setup path and per-channel launch path) place channel 4r+j at the same bit offset (abstract bit placement, sibling agreement). Round-3 rules: per-streamer locals are assigned in the iteration that reads them (C08.per-streamer-fresh, F-36 fixed); the bypass bit of an extension is its position among the extensions (C08.bypass-bit). Round-4 rule: the rescale whose parameters fill the gemmx registers is located from the region's yield or by a scan of the body, not at a fixed distance behind the matmul (C08.rescale-source). Round-5 rule: a per-operand flag collected over the spatial dimensions is only raised or or-ed inside that loop (C08.broadcast-any).",
     "Python list-building semantics as modelled by sa/shape.py (append/extend/+/splat/comprehensions/loops/if-merging); option tests and length aliases normalised; the xDMA system type is tied to the xDMA accelerator class (frozen).",
     "sequence-shape abstract interpretation with symbolic domains and label provenance; must-facts for guards (static analysis)",
     "DESIGN.md section 5, C08",
@@ -278,7 +278,7 @@ CLAIMED["C02"] = (
     "results, xDMA add extension, identity defaults): position h of the pattern list and of inputs+outputs carries the pattern and the "
     "pointer of the operand scheduled for hardware streamer h, and the new op uses exactly what the hook returns; (tsl-affine) by abstract "
     "evaluation with symbolic bounds and steps over the repo's own TSL classes, for every tiling profile of 1-2 dimensions x 1-4 levels: "
-    "the layout map equals offset + sum step*((d mod prod(bounds[depth:])) div prod(bounds[depth+1:])). Also: the pointer is moved, at the place where it is moved, by the origin response of the composed map (not of the layout alone), and StridePattern.canonicalize (applied to every emitted pattern) folds only contiguous dimensions (rule shared with C19). Round-3 clause: get_streamers returns this accelerator's own streamers (a distinct module default is modelled). Round-4 clause: strides and the base-pointer shift are both in bytes (byte map, or element map times the element size).",
+    "the layout map equals offset + sum step*((d mod prod(bounds[depth:])) div prod(bounds[depth+1:])). Also: the pointer is moved, at the place where it is moved, by the origin response of the composed map (not of the layout alone), and StridePattern.canonicalize (applied to every emitted pattern) folds only contiguous dimensions (rule shared with C19). Round-3 clause: get_streamers returns this accelerator's own streamers (a distinct module default is modelled). Round-4 clause: strides and the base-pointer shift are both in bytes (byte map, or element map times the element size). Round-5 rule: a table that LayoutResolution fills in a loop and consults to skip work is keyed by every loop variable the stored value depends on (C02.dedupe-key); the closed-form comparison of the layout map reads divide-then-mod terms.",
     "Abstract evaluation is bounded (5 hardware streamers from the module's default configuration, <= 4 tile levels, <= 2 dimensions); "
     "models of StridePattern / StreamType / AffineDimExpr are the checker's own (structure only); on a streamer shared by several operands "
     "the first scheduled operand owns pattern and pointer (the add extension's fixed 512-byte second-input stride is taken as given).",
